@@ -161,11 +161,38 @@ Proof.
     f_equal. lia.
 Qed.
 
+Lemma w64_idem_l a b : w64 (w64 a + b) = w64 (a + b).
+Proof. unfold w64. apply N.add_mod_idemp_l. discriminate. Qed.
+
+Lemma w64_idem_r a b : w64 (a + w64 b) = w64 (a + b).
+Proof. unfold w64. apply N.add_mod_idemp_r. discriminate. Qed.
+
 Lemma hreduce_spec lanes : length lanes = 16%nat -> hreduce lanes = w64 (lsum lanes).
 Proof.
-  intros H.
-  do 16 (destruct lanes as [|? lanes]; [discriminate H|]). destruct lanes; [|discriminate H].
-  unfold hreduce. cbn [firstn skipn vpaddq rev app hd lsum fold_right]. unfold w64. lia.
+  intros H. unfold hreduce.
+  set (y4 := firstn 4 lanes). set (y5 := firstn 4 (skipn 4 lanes)).
+  set (y6 := firstn 4 (skipn 8 lanes)). set (y7 := firstn 4 (skipn 12 lanes)).
+  assert (Hs : lsum lanes = lsum y4 + lsum y5 + lsum y6 + lsum y7).
+  { subst y4 y5 y6 y7.
+    do 16 (destruct lanes as [|? lanes]; [discriminate H|]). destruct lanes; [|discriminate H].
+    cbn [firstn skipn lsum fold_right]. lia. }
+  assert (L4 : length y4 = 4%nat) by (subst y4; rewrite firstn_length; lia).
+  assert (L5 : length y5 = 4%nat) by (subst y5; rewrite firstn_length, skipn_length; lia).
+  assert (L6 : length y6 = 4%nat) by (subst y6; rewrite firstn_length, skipn_length; lia).
+  assert (L7 : length y7 = 4%nat) by (subst y7; rewrite firstn_length, skipn_length; lia).
+  clearbody y4 y5 y6 y7.
+  destruct (vpaddq_spec y4 y5) as [La Ea]; [lia|].
+  destruct (vpaddq_spec y6 y7) as [Lb Eb]; [lia|].
+  destruct (vpaddq_spec (vpaddq y4 y5) (vpaddq y6 y7)) as [Lc Ec]; [lia|].
+  set (Y := vpaddq (vpaddq y4 y5) (vpaddq y6 y7)) in *.
+  assert (EY : lsum Y mod M64 = lsum lanes mod M64).
+  { rewrite Ec, Hs. rewrite N.add_mod by discriminate. rewrite Ea, Eb.
+    rewrite <- N.add_mod by discriminate. f_equal. lia. }
+  assert (LY : length Y = 4%nat) by lia.
+  clearbody Y.
+  destruct Y as [|a [|b [|c [|d [|e Y]]]]]; try discriminate LY.
+  cbn [firstn skipn vpaddq rev app hd]. rewrite w64_idem_l, w64_idem_r.
+  unfold w64. fold M64. rewrite <- EY. cbn [lsum fold_right]. f_equal. lia.
 Qed.
 
 Lemma lsum_zero_lanes : lsum zero_lanes = 0.
